@@ -34,6 +34,12 @@ def check(ctx, which=None):
     pairs.append((tw, [dict(f, name="R" + f["name"][1:]) for f in reversed(tw)]))
     same = [{"name": "F%d" % i, "shape": "branch", "k": 2, "origin": "s%d" % i} for i in range(1, 5)]
     pairs.append((same, [dict(f, name="R" + f["name"][1:]) for f in same]))
+    # large same-shape families, all renamed (every candidate ties on similarity; only the body tells them
+    # apart): sizes around any plausible per-function candidate cap
+    for shape, nfam in (("arith", 13), ("loop", 11), ("branch", 9), ("calls", 17 if thorough else 14)):
+        fam = [{"name": "F%02d" % i, "shape": shape, "k": i, "origin": "%s%d" % (shape, i)} for i in range(1, nfam + 1)]
+        extra = [{"name": "Keep1", "shape": "nested", "k": 1, "origin": "keep1"}]
+        pairs.append((fam + extra, [dict(f, name="R" + f["name"][1:]) for f in fam] + extra))
     evs, raws, plan = dl.run_pairs(ctx, pairs, "pairs")
     ctx.notes["file_pairs"] = len(pairs)
     ctx.notes["functions_old_total"] = sum(len(e["old"]) for e in evs)
